@@ -30,7 +30,7 @@ STRENGTHENED = {
     "C22-5": "first run missed it (C22 and C01): no generated fold combined a lower-bound count filter (>=, >) with an exclusion count filter (!=, not_one_of) while nothing inside the fold is observed; directed shape S6 `min-plus-exclusion` added to the C22 generator (first run kept as first_run_C22.log)",
     "C23-5": "first run missed it (C23 and C22; same edit site as C22-5, written independently): C23 only added filters on properties; the transformation add-count-filter (one count filter, then a second one on the same fold, half of the chains starting from the query with nothing observed inside the fold; each step rows' <+ rows) and the theorem add_count_filter_sub were added; C22 catches it since shape S6 (first runs kept as first_run_*.log)",
     "C12-5": "first run missed it (C12 and C11): the query generator never shared a variable between a fold-count filter and a property filter (different value hints); knob p_cross_hint_reuse added and switched on for every third tree of C11's generator. Caught by C11 (the IR's `variables` entry differs from toIR's); C12 decides validation against the variables the compiled query declares (an input of its model), as for C12-3",
-    "C09-5": "not caught by C09's own check at quick tier (needs a has_substring filter whose tag operand and property are both null on one row); caught by C07, which owns the operator semantics and its panic-freedom (typed_no_panic_partial) and evaluates every operator on null/null",
+    "C09-5": "first run missed it in C09's own check (caught by C07 only): the null/null operand pair needs a tag operand and a property that are both null on one row; the operand-type-matrix worlds now end in an all-null vertex that is its own first e0 neighbour, so every cell with two nullable operands meets null/null in all three tag placements (first run kept as first_run_C09.log)",
     "C21-2": "first run missed it: no generated world recursed from a strict subtype of the interface that declares the edge; a directed world family was added (see mutcheck_C21.log)",
 }
 
